@@ -1,4 +1,5 @@
 import OrbitModel.Proofs.ReplC11
+import OrbitModel.Proofs.ReplSlots
 import OrbitModel.Proofs.ReplExamples
 import OrbitModel.Proofs.ReplCheck
 /-!
@@ -77,5 +78,16 @@ theorem pinned_tree_wedges :
     s1.log = [] ∧ quiescent s1 = true ∧ task s1 3 = some .added ∧
     s2.log = [] ∧ quiescent s2 = true ∧ s2.buffer = [3, 4] ∧ task s2 2 = some .added :=
   Ex.pinned_cancel_wedges
+
+/-- **no aborted request leaks a fetch slot**: after EVERY history (loads, cancellations at any point,
+failing fetches, any interleaving) free slots + workers holding one = the capacity, and once no worker
+is left every slot is free and nothing is counted as in progress — so aborted requests can never
+starve later ones of slots. (The harness checks the same equation on the real replicator whenever
+it is at rest: `C11/slots`.) -/
+theorem slots_are_conserved (net : Nat → Info) (c : Nat) (acts : List Act) :
+    (run net { sem := c } acts).sem + holding (run net { sem := c } acts).workers = c ∧
+    ((run net { sem := c } acts).workers = [] →
+      (run net { sem := c } acts).sem = c ∧ (run net { sem := c } acts).inProgress = 0) :=
+  ⟨(slots_run net c acts).sem, slots_all_free_at_rest net c acts⟩
 
 end Orbit.C11
